@@ -555,6 +555,51 @@ pub fn run_tower(prop: Prop, h: &History, st: &mut Stats) -> Outcome {
                 } else {
                     None
                 };
+                // "the source colour at the pixel scaled by the global alpha": the source field at
+                // alpha must be the field at alpha 1 scaled (relative check, 3/255 per channel),
+                // and a solid source at alpha 1 is exactly its colour word
+                if let (Some(sf), Some(o)) = (&srcf, get_opts(op)) {
+                    let a = o.alpha.0;
+                    if mk::mat(&ctm).inverse().is_some() {
+                        let mut op1 = op.clone();
+                        set_opts(&mut op1, |x| x.alpha = F(1.));
+                        let full = if a != 1. {
+                            match mk::guarded(budget, || source_field(&op1, &ctm, w, hh)) {
+                                Ok(s) => s,
+                                Err(pi) => {
+                                    st.abort(&panic_class(&pi));
+                                    return Outcome::Aborted(format!("canonical source field: {}", panic_desc(&pi)));
+                                }
+                            }
+                        } else {
+                            Some(sf.clone())
+                        };
+                        if let Some(full) = full {
+                            if let Some(solid) = get_src(op).and_then(|s| mk::solid_of(&s.kind)) {
+                                if let Some(px) = full.iter().position(|p| *p != solid.to_u32()) {
+                                    return viol("c03.solid-source-colour", i, format!("{}: a solid source {:08x} at alpha 1 shades pixel {} as {:08x}", op.name(), solid.to_u32(), px, full[px]));
+                                }
+                            }
+                            if a >= 0. && a < 1. {
+                                for px in 0..n {
+                                    for c in 0..4 {
+                                        let sh = 8 * c;
+                                        let f = ((full[px] >> sh) & 0xff) as f32;
+                                        let g = ((sf[px] >> sh) & 0xff) as f32;
+                                        if (g - f * a).abs() > kernel::TOL {
+                                            return viol(
+                                                "c03.source-not-scaled-by-alpha",
+                                                i,
+                                                format!("{}: source colour at pixel ({},{}) is {:08x} at alpha 1 and {:08x} at alpha {}", op.name(), px as i32 % w, px as i32 / w, full[px], sf[px], a),
+                                            );
+                                        }
+                                    }
+                                }
+                                st.count("c03.alpha_scaling_checked");
+                            }
+                        }
+                    }
+                }
                 // C05: the same call without any clip on a fresh target holding the same pixels
                 let unclipped = if prop == Prop::C05 && !clips.is_empty() {
                     let mut sh = mk::Shadow::new();
